@@ -310,8 +310,11 @@ def check_closed_form(ctx, kind: str, fi, fill_true_only=False) -> Optional[str]
     has_fill = len(ps) > 2
     fills = (True,) if (fill_true_only or not has_fill) else (True, False)
     forms = {}
+    from .common import count_semantics
+    others = tuple(q_ for q_ in (LOWER, HIGHER) if q_ != fi.qualname)
     for fill in fills:
-        ev = Evaluator(ctx.prog, inline=lambda f: True, opaque_kind=REPO_RESULT_KIND, elementwise=True)
+        # the other one-sided searches, where this one is built on them, stand for what C10.4 proves of them (counts); everything else is inlined
+        ev = Evaluator(ctx.prog, inline=inline_except(*others) if kind == 'closest' else (lambda f: True), opaque_kind=REPO_RESULT_KIND, elementwise=True)
         args = {ps[0]: X, ps[1]: Q}
         if has_fill:
             args[ps[2]] = Const(fill)
@@ -323,6 +326,7 @@ def check_closed_form(ctx, kind: str, fi, fill_true_only=False) -> Optional[str]
             return ev.issues[0]
         if not (isinstance(res, Num) and res.length is not None):
             return f"result is not an element-wise array value: {show(res, 160)}"
+        res = count_semantics(res)
         if any(sym.ATOMS.head(a_) not in ('sym',) for a_ in sym.all_atoms(res.length)):
             return f"the extent of the result is not derivable: {sym.show(res.length)[:120]}"
         carried = [t for t in walk_vals(res) if isinstance(t, Term) and t.head in ('loopvar', 'loopstate', 'stored', 'mutated')]
